@@ -28,6 +28,12 @@ fn declare() {
     allow_unops(u(crate::unary_operator::UnaryOperator::Indirection));
     allow_mask((1 << K_VARIABLE) | (1 << K_BINOPERATION) | (1 << K_UNARYOPERATION) | (1 << K_BLOCK) | (1 << K_IFELSE) | (1 << K_SET) | (1 << K_ARRAYREPEAT) | (1 << K_ARRAY) | (1 << K_TUPLE) | (1 << K_TUPLEACCESS));
 }
+fn kinds(mask: u32) {
+    use crate::instruction::verif_gate::*;
+    declare();
+    allow_mask((1 << K_VARIABLE) | mask);
+}
+use crate::instruction::verif_gate::{K_ARRAYREPEAT, K_BINOPERATION, K_BLOCK, K_IFELSE, K_SET, K_UNARYOPERATION};
 fn iws(i: Instruction) -> InstructionWithStr {
     InstructionWithStr { instruction: i, str: "e".into() }
 }
@@ -39,12 +45,10 @@ fn hid(v: i64) -> Instruction {
     UnaryOperation { instruction: Instruction::Variable(Variable::Mut(new_cell(Type::Int, Variable::Int(v)))), op: UnaryOperator::Indirection }.into()
 }
 fn run(i: &Instruction) -> Result<Variable, ExecStop> {
-    declare();
     let mut interp = Interpreter::without_stdlib();
     i.exec(&mut interp)
 }
 fn fold(i: &Instruction) -> Result<Instruction, ExecError> {
-    declare();
     let interp = Interpreter::without_stdlib();
     let mut lv = LocalVariables::new(&interp);
     let r = i.recreate(&mut lv);
@@ -84,6 +88,7 @@ fn set_then_use(c: i64, k: i64) -> (Instruction, Instruction) {
 #[kani::unwind(5)]
 #[kani::stub(alloc::fmt::format, crate::verif_common::stub_format)]
 pub fn propagate_set_into_use() {
+    kinds((1 << K_BLOCK) | (1 << K_SET) | (1 << K_BINOPERATION) | (1 << K_UNARYOPERATION));
     let (c, k): (i64, i64) = (kani::any(), kani::any());
     let (f, r) = set_then_use(c, k);
     twin(&f, &r);
@@ -96,6 +101,7 @@ pub fn propagate_set_into_use() {
 #[kani::unwind(5)]
 #[kani::stub(alloc::fmt::format, crate::verif_common::stub_format)]
 pub fn propagate_respects_block_scope() {
+    kinds((1 << K_BLOCK) | (1 << K_SET) | (1 << K_UNARYOPERATION));
     let (c1, c2): (i64, i64) = (kani::any(), kani::any());
     let mk = |a: Instruction, b: Instruction| -> Instruction {
         let outer_set: Instruction = Set { ident: "x".into(), instruction: iws(a) }.into();
@@ -119,6 +125,7 @@ pub fn propagate_respects_block_scope() {
 #[kani::unwind(5)]
 #[kani::stub(alloc::fmt::format, crate::verif_common::stub_format)]
 pub fn prune_constant_condition() {
+    kinds((1 << K_IFELSE) | (1 << K_BINOPERATION) | (1 << K_UNARYOPERATION));
     let (a, b): (i64, i64) = (kani::any(), kani::any());
     let c: bool = kani::any();
     let acc_f = new_cell(Type::Int, Variable::Int(0));
@@ -141,6 +148,7 @@ pub fn prune_constant_condition() {
 /// `[v; n]` with constant operands: a negative constant length may be reported at parse time, and
 /// only then; otherwise same array
 fn repeat_twin(n: i64) {
+    kinds((1 << K_ARRAYREPEAT) | (1 << K_UNARYOPERATION));
     let v: i64 = kani::any();
     let f: Instruction = ArrayRepeat { value: iws(lit(v)), len: iws(lit(n)) }.into();
     let r: Instruction = ArrayRepeat { value: iws(hid(v)), len: iws(hid(n)) }.into();
@@ -176,6 +184,7 @@ pub fn array_repeat_constant_length() {
 #[kani::unwind(4)]
 #[kani::stub(alloc::fmt::format, crate::verif_common::stub_format)]
 pub fn early_errors_only_when_certain() {
+    kinds((1 << K_BINOPERATION) | (1 << K_UNARYOPERATION));
     let x: i64 = kani::any();
     let ops = |op: BinOperator, c: i64, right: bool| -> (Instruction, Instruction) {
         let (fl, fr) = if right { (hid(x), lit(c)) } else { (lit(c), hid(x)) };
